@@ -53,19 +53,11 @@ const (
 	rwRegex  = `^(RW\.TEST|rw\.test\.|rw\.test:7443|\[::1\]:8080)$`
 )
 
-var hosts = []string{hostApp, hostOther, hostSvcA, hostSvcB} // the static ones (stream ii models static routing)
+var hosts = []string{hostApp, hostOther, hostSvcA, hostSvcB, hostGrp, hostMix} // the static ones (stream ii models static routing)
 
-var flowHosts = []string{hostApp, hostApp, hostApp, hostOther, hostSvcA, hostSvcA, hostSvcB, hostSvcB, hostRwUp, hostRwDt, hostRw6, "rw.test:7443"}
-
-// emailValid is the upstream's rule as configured in main(): a domain rule or an address rule.
-func emailValid(host, email string) bool {
-	switch host {
-	case hostOther, hostSvcB:
-		return email == "vip@co.io"
-	default:
-		return strings.HasSuffix(email, "@ex.io")
-	}
-}
+// see deploy.go for the upstreams behind these hosts and their rules
+var flowHosts = []string{hostApp, hostApp, hostApp, hostOther, hostSvcA, hostSvcA, hostSvcB, hostSvcB, hostRwUp, hostRwDt, hostRw6, "rw.test:7443",
+	hostGrp, hostGrp, hostGrp, hostMix, hostMix, hostAdmin, hostAdmin, hostAdmin, hostAny}
 
 // stateRec mirrors proxy.StateParameter's JSON (internal/proxy/oauthproxy.go:80-84).
 type stateRec struct {
@@ -78,7 +70,9 @@ type world struct {
 	other   aead.Cipher // a cipher under a different secret
 	srv     *httptest.Server
 	addr    string
-	sess    []string // sealed session values produced by real logins of this proxy
+	sess    []string // sealed session values of this proxy: two logins, and the first session re-saved after a revalidation
+	ups     []upstream // the deployment, in file order
+	name    string
 	csrfKey string
 	strict  bool // the real callback refuses a state record with an empty session id (probed once)
 }
@@ -88,11 +82,30 @@ type world struct {
 // ordinary login is refused): that is a broken correspondence, which check.py reports as VIOLATION
 // (no-failing-input-found at worst).  common.Must (exit 3) is kept for the harness's own
 // infrastructure: sockets, files, the fake peers.
+//
+// Exit 4 promises check.py that the cases gathered so far were written: expect writes them before it
+// leaves; soft only notes the failure, the run goes on without that ingredient (the cases that follow
+// usually show the failing input) and main exits 4 after writing everything.
+var (
+	runArgs      c.Args
+	allCases     []c.Case
+	softFailures []string
+)
+
 func expect(err error) {
 	if err != nil {
 		fmt.Fprintln(os.Stderr, "expectation about the code under test failed:", err)
+		c.Must(c.WriteShards(runArgs.Out, "Corr_C06", allCases, runArgs.Shard))
 		os.Exit(4)
 	}
+}
+
+func soft(err error) bool {
+	if err != nil {
+		softFailures = append(softFailures, err.Error())
+		return false
+	}
+	return true
 }
 
 // shape is how a request is dressed: the method and the headers a browser (or an attacker's page
@@ -375,6 +388,7 @@ func strp(s string) *string { return &s }
 
 func (w *world) flowCase(r *c.Rng, auth *codeAuth, force string) (c.Case, error) {
 	x := newCtx()
+	forcedProfile := ""
 	host := r.Pick(flowHosts)
 	// the callback may arrive under ANOTHER Host than the flow was started under (the CSRF cookie's
 	// domain has no port): the session must be bound to the callback's Host, port included
@@ -399,6 +413,13 @@ func (w *world) flowCase(r *c.Rng, auth *codeAuth, force string) (c.Case, error)
 		} else if strings.HasSuffix(force, "@dot") {
 			force = strings.TrimSuffix(force, "@dot")
 			host, cbHost = hostRwDt, hostRwDt
+		} else if strings.HasSuffix(force, "@overlap") { // a host two rewrite upstreams match
+			force = strings.TrimSuffix(force, "@overlap")
+			host, cbHost = hostAdmin, hostAdmin
+		} else if i := strings.Index(force, "@grp:"); i >= 0 { // group-restricted upstream, chosen /profile answer
+			forcedProfile = force[i+5:]
+			force = force[:i]
+			host, cbHost = hostGrp, hostGrp
 		}
 	}
 	tA := r.Pick(startTargets)
@@ -486,6 +507,11 @@ func (w *world) flowCase(r *c.Rng, auth *codeAuth, force string) (c.Case, error)
 		add("session-equal", sessStr[0], enc(sessSyms[0]), strp(sessStr[0]), pw(enc(sessSyms[0])), 0)
 		add("session-state", sessStr[0], enc(sessSyms[0]), strp(A.cookie), pw(enc(A.cookSym)), 0)
 		add("session-cookie", A.state, enc(A.stateSym), strp(sessStr[0]), pw(enc(sessSyms[0])), 0)
+	}
+	if len(sessStr) >= 3 { // one session, sealed twice: the login's cookie and the cookie re-saved after a revalidation
+		add("session-resealed", sessStr[0], enc(sessSyms[0]), strp(sessStr[2]), pw(enc(sessSyms[2])), 0)
+		add("session-resealed", sessStr[2], enc(sessSyms[2]), strp(sessStr[0]), pw(enc(sessSyms[0])), 0)
+		add("session-resealed-vs-other", sessStr[2], enc(sessSyms[2]), strp(sessStr[1]), pw(enc(sessSyms[1])), 0)
 	}
 	// sealed under another key
 	{
@@ -580,11 +606,22 @@ func (w *world) flowCase(r *c.Rng, auth *codeAuth, force string) (c.Case, error)
 			redeem, redeemSym = okRedeem(email), "(RedeemOk "+c.Str(email)+")"
 		}
 	}
-	valid := emailValid(cbHost, email)
+	// the group question (asked only by upstreams with allowed_groups): a healthy answer, or a fault at
+	// exactly this point while /redeem is fine
+	pm := profileMenu(email)
+	prof := pm[r.Intn(len(pm))]
+	if forcedProfile != "" {
+		for _, q := range pm {
+			if q.Tag == forcedProfile {
+				prof = q
+			}
+		}
+	}
+	valid := w.admits(cbHost, email, prof)
 	if code != "" { // a code of its own for every case: the authenticator answers per code
 		code = fmt.Sprintf("code-%d", r.Intn(1000000))
 	}
-	auth.script(map[string]c.Answer{code: redeem})
+	auth.scriptProfile(map[string]c.Answer{code: redeem}, prof.Answer)
 
 	q := url.Values{}
 	if code != "" {
@@ -692,7 +729,7 @@ func (w *world) flowCase(r *c.Rng, auth *codeAuth, force string) (c.Case, error)
 		rec.Code, c.Bool(redeemCalled), sessObs, c.Bool(csrfEff == "cleared"), c.Str(location))
 	coq := fmt.Sprintf("CFlow %s %s %s %s %s %s %s", c.Bool(canon), c.Bool(w.strict), c.List(stf), c.List(iss), reqCoq, c.List(rt), obsCoq)
 	js := map[string]interface{}{
-		"kind": "flow", "presented": ch.tag, "host": cbHost, "started_under": host, "start_targets": []string{tA, tB}, "start_shapes": []string{A.shape.describe(), B.shape.describe()}, "recorded": []string{A.rec.Redirect, B.rec.Redirect},
+		"kind": "flow", "deployment": w.name, "presented": ch.tag, "host": cbHost, "owner": w.ownerName(cbHost), "profile": prof.Tag, "started_under": host, "start_targets": []string{tA, tB}, "start_shapes": []string{A.shape.describe(), B.shape.describe()}, "recorded": []string{A.rec.Redirect, B.rec.Redirect},
 		"code": code, "error": errParam, "form_ok": formOK, "redeem": redeemSym, "valid": valid, "post": post, "canonical_decoding": canon, "empty_record_refused": w.strict,
 		"obs": map[string]interface{}{"status": rec.Code, "redeem_called": redeemCalled, "session": sessJSON, "csrf_cleared": csrfEff == "cleared", "location": location},
 	}
@@ -773,7 +810,7 @@ func (w *world) concurrentGroup(r *c.Rng, auth *codeAuth, n int, sameHost bool) 
 		redeemCalled := auth.redeemed(m.code)
 		rt := []string{c.Pair(c.Str(""), c.Str(goRedirect(""))), c.Pair(c.Str(f.Redirect), c.Str(goRedirect(f.Redirect)))}
 		reqCoq := fmt.Sprintf("{| cb_form_ok := true; cb_error := []; cb_code := %s; cb_state := %s; cb_cookie := (Some %s); cb_host := %s; cb_redeem := %s; cb_valid := %s |}",
-			c.Str(m.code), wire{Sealed: m.fl.stateSym}.coq(), wire{Sealed: m.fl.cookSym}.coq(), c.Str(m.host), m.redeemSym, c.Bool(emailValid(m.host, m.email)))
+			c.Str(m.code), wire{Sealed: m.fl.stateSym}.coq(), wire{Sealed: m.fl.cookSym}.coq(), c.Str(m.host), m.redeemSym, c.Bool(w.admits(m.host, m.email, profileAnswer{})))
 		obsCoq := fmt.Sprintf("{| fo_status := %d; fo_redeem_called := %s; fo_session := %s; fo_csrf_cleared := %s; fo_location := %s |}",
 			ob.status, c.Bool(redeemCalled), ob.sessCoq, c.Bool(ob.csrfCleared), c.Str(ob.location))
 		// canonical decoding plays no part here (own, canonical values): pass what the probe says
@@ -795,7 +832,7 @@ func (w *world) concurrentGroup(r *c.Rng, auth *codeAuth, n int, sameHost bool) 
 		}
 		sort.Strings(seen) // arrival order is a race, not an observable
 		js := map[string]interface{}{
-			"kind": "flow", "presented": "own-concurrent", "group_size": n, "member": i, "same_host": sameHost, "host": m.host, "start_target": m.target, "start_shape": m.fl.shape.describe(),
+			"kind": "flow", "deployment": w.name, "presented": "own-concurrent", "group_size": n, "member": i, "same_host": sameHost, "host": m.host, "start_target": m.target, "start_shape": m.fl.shape.describe(),
 			"recorded": f.Redirect, "redeem": m.redeemSym, "authenticator_saw": seen, "canonical_decoding": canon, "empty_record_refused": w.strict,
 			"obs": map[string]interface{}{"status": ob.status, "redeem_called_with_own_code": redeemCalled, "session": ob.sessJSON, "csrf_cleared": ob.csrfCleared, "location": ob.location},
 		}
@@ -989,8 +1026,14 @@ func readCorpus(dir string) (targets []string, flows []string) {
 
 func main() {
 	a := c.ParseArgs()
+	runArgs = a
 	c.Quiet()
 	log.SetOutput(ioutil.Discard) // net/http's remarks (e.g. about an IPv6 cookie domain) are not observations
+	// every other seed runs in a zone east of UTC: nothing the property observes may depend on the zone
+	// the process happens to run in (sealed deadlines are instants)
+	if a.Seed%2 == 0 {
+		time.Local = time.FixedZone("UTC+9", 9*3600)
+	}
 	r := c.NewRng(a.Seed)
 	dir := c.Scratch(a.Out)
 	defer os.RemoveAll(dir)
@@ -998,59 +1041,28 @@ func main() {
 	defer auth.Srv.Close()
 	backend := c.NewBackend("b")
 	defer backend.Srv.Close()
-	yaml := "- service: app\n  default:\n    from: " + hostApp + "\n    to: " + backend.HostPort() + "\n    options:\n      allowed_email_domains: [\"ex.io\"]\n" +
-		"- service: other\n  default:\n    from: " + hostOther + "\n    to: " + backend.HostPort() + "\n    options:\n      allowed_email_addresses: [\"vip@co.io\"]\n" +
-		"- service: svca\n  default:\n    from: " + hostSvcA + "\n    to: " + backend.HostPort() + "\n    options:\n      allowed_email_domains: [\"ex.io\"]\n" +
-		"- service: svcb\n  default:\n    from: " + hostSvcB + "\n    to: " + backend.HostPort() + "\n    options:\n      allowed_email_addresses: [\"vip@co.io\"]\n" +
-		"- service: rw\n  default:\n    from: '" + rwRegex + "'\n    to: " + backend.HostPort() + "\n    type: rewrite\n    options:\n      allowed_email_domains: [\"ex.io\"]\n"
-	// BuildProxy only needs the authenticator's address
-	pw, err := c.BuildProxy(c.ProxyOpts{YAML: yaml, Valid: time.Hour, Dir: dir}, &c.FakeAuth{Srv: auth.Srv})
-	expect(err) // the proxy boots from its configuration (SetUpstreamConfigs + proxy.New)
-	other, err := aead.NewMiscreantCipher(c.OtherSecret)
-	c.Must(err)
-	w := &world{ProxyWorld: pw, other: other, csrfKey: pw.CookieName + "_csrf"}
-	w.srv = httptest.NewUnstartedServer(pw.Handler)
-	w.srv.Config.ErrorLog = log.New(ioutil.Discard, "", 0) // net/http's own complaints are not observations
-	w.srv.Start()
+	// the same upstreams in both file orders: every upstream is exercised in both, and the owner of a
+	// host that two rewrite upstreams match is the first one IN THE FILE
+	w := boot("file-order", baseUpstreams(), auth, backend.HostPort(), dir)
 	defer w.srv.Close()
-	w.addr = strings.TrimPrefix(w.srv.URL, "http://")
-
-	// two ordinary logins: the sealed sessions they yield are "values this proxy sealed"
-	auth.script(map[string]c.Answer{"abc": okRedeem("u@ex.io")})
-	for i := 0; i < 2; i++ {
-		x := newCtx()
-		st, err := w.start(x, hostApp, "/", plainGET)
-		expect(err)
-		req, err := rawRequest("GET", "/oauth2/callback?code=abc&state="+url.QueryEscape(st.state), hostApp, map[string]string{"Cookie": w.csrfKey + "=" + st.cookie}, "")
-		c.Must(err)
-		rec := w.Do(req)
-		eff, val := c.CookieEffect(rec, w.CookieName)
-		if eff != "set" {
-			expect(fmt.Errorf("set-up login failed: status %d", rec.Code))
+	wRev := boot("reverse-order", reversed(baseUpstreams()), auth, backend.HostPort(), dir)
+	defer wRev.srv.Close()
+	pick := func() *world {
+		if r.Chance(0.3) {
+			return wRev
 		}
-		w.sess = append(w.sess, val)
-	}
-	// Probe for the model's [strict] parameter: a state record with an EMPTY session id (forged here
-	// with the known secret, paired with an equally forged cookie) — refused with 400 only by a
-	// callback that carries the guard proposed for finding C06-K2.
-	{
-		e1, _ := w.Cipher.Marshal(&stateRec{})
-		e2, _ := w.Cipher.Marshal(&stateRec{})
-		req, err := rawRequest("GET", "/oauth2/callback?code=abc&state="+url.QueryEscape(e1), hostApp, map[string]string{"Cookie": w.csrfKey + "=" + e2}, "")
-		c.Must(err)
-		rec := w.Do(req)
-		eff, _ := c.CookieEffect(rec, w.CookieName)
-		w.strict = rec.Code == http.StatusBadRequest && eff != "set"
+		return w
 	}
 
-	var cases []c.Case
 	corpusTargets, corpusFlows := readCorpus(a.Corpus)
 	// hand-written flow cases first: the witnesses of the known findings among them
 	for _, tag := range append([]string{"own", "swapped", "cross", "equal-state", "equal-cookie", "no-cookie", "no-state",
 		"respelled-cookie-as-state", "respelled-state", "sessions", "session-equal", "session-state", "session-cookie",
 		"other-key-state", "other-key-cookie", "forged-redirect", "bitflip-state", "bitflip-cookie", "truncated", "junk-cookie",
 		"own@port", "own@cross-port", "own@ipv6", "own@upper", "own@dot", "swapped@port", "cross@port",
-		"cross@same", "cross-rev@same", "cross-cookies@same", "own@same", "respelled-state-as-cookie"}, corpusFlows...) {
+		"cross@same", "cross-rev@same", "cross-cookies@same", "own@same", "respelled-state-as-cookie",
+		"session-resealed", "session-resealed-vs-other",
+		"own@grp:member", "own@grp:not-member", "own@grp:no-groups", "own@grp:503", "own@grp:429", "own@grp:500", "own@grp:dropped", "own@grp:bad-json"}, corpusFlows...) {
 		cs, err := w.flowCase(r, auth, tag)
 		if err != nil {
 			// a respelling by trailing bits exists only for some lengths; retry a few flows
@@ -1064,17 +1076,17 @@ func main() {
 				expect(err)
 			}
 		}
-		cases = append(cases, cs)
+		allCases = append(allCases, cs)
 	}
 	for _, t := range boundaryTargets {
-		cases = append(cases, w.targetCase(hostApp, t, plainGET))
+		allCases = append(allCases, w.targetCase(hostApp, t, plainGET))
 	}
 	for _, t := range corpusTargets {
-		cases = append(cases, w.targetCase(hostApp, t, plainGET))
+		allCases = append(allCases, w.targetCase(hostApp, t, plainGET))
 	}
 	for _, t := range []string{"/", "/x", "//evil.com", "http://" + hostApp + "/x", "/ping"} {
-		cases = append(cases, w.targetCase(hostOther, t, plainGET))
-		cases = append(cases, w.targetCase("unknown.test", t, plainGET))
+		allCases = append(allCases, w.targetCase(hostOther, t, plainGET))
+		allCases = append(allCases, w.targetCase("unknown.test", t, plainGET))
 	}
 	// the same few targets under every method, with Referer / forwarding headers an attacker's page can cause
 	for _, meth := range []string{"POST", "PUT", "DELETE", "PATCH", "HEAD", "OPTIONS"} {
@@ -1083,22 +1095,38 @@ func main() {
 			if ref != "" {
 				sh.Hdr["Referer"] = ref
 			}
-			cases = append(cases, w.targetCase(hostApp, "/account/email?x=1", sh))
+			allCases = append(allCases, w.targetCase(hostApp, "/account/email?x=1", sh))
 		}
+	}
+	// the same forced cases on the deployment in reverse file order, and REPEATED logins on the host that
+	// two rewrite upstreams match (ownership must not vary from request to request)
+	for _, tag := range []string{"own", "cross", "sessions", "session-resealed", "own@port", "own@upper", "own@grp:member", "own@grp:503", "own@grp:dropped"} {
+		cs, err := wRev.flowCase(r, auth, tag)
+		expect(err)
+		allCases = append(allCases, cs)
+	}
+	for i := 0; i < 64; i++ {
+		ww := w
+		if i%4 == 3 {
+			ww = wRev
+		}
+		cs, err := ww.flowCase(r, auth, "own@overlap")
+		expect(err)
+		allCases = append(allCases, cs)
 	}
 	// callbacks in flight at once: pairs and triples, on one host and on different hosts
 	nGroups := 6 + a.N/100
 	for i := 0; i < nGroups; i++ {
 		n := 2 + i%2
-		cs, err := w.concurrentGroup(r, auth, n, i%4 != 3)
+		cs, err := pick().concurrentGroup(r, auth, n, i%4 != 3)
 		expect(err)
-		cases = append(cases, cs...)
+		allCases = append(allCases, cs...)
 	}
 	nFlow := a.N * 2 / 5
 	for i := 0; i < nFlow; i++ {
-		cs, err := w.flowCase(r, auth, "")
+		cs, err := pick().flowCase(r, auth, "")
 		expect(err)
-		cases = append(cases, cs)
+		allCases = append(allCases, cs)
 	}
 	for i := 0; i < a.N-nFlow; i++ {
 		hh := hostApp
@@ -1108,8 +1136,12 @@ func main() {
 		case 1:
 			hh = "unknown.test"
 		}
-		cases = append(cases, w.targetCase(hh, genTarget(r), genShape(r, hh)))
+		allCases = append(allCases, w.targetCase(hh, genTarget(r), genShape(r, hh)))
 	}
-	c.Must(c.WriteShards(a.Out, "Corr_C06", cases, a.Shard))
-	fmt.Printf("cases=%d\n", len(cases))
+	c.Must(c.WriteShards(a.Out, "Corr_C06", allCases, a.Shard))
+	fmt.Printf("cases=%d\n", len(allCases))
+	if len(softFailures) > 0 {
+		fmt.Fprintln(os.Stderr, "expectation about the code under test failed:", strings.Join(softFailures, "; "))
+		os.Exit(4)
+	}
 }
